@@ -1876,7 +1876,18 @@ def sum_term(L, a):
         _selection_sum_lemma(L, a, st)
         return st
     if a.dtype == 'int64':
-        return ISUM(ArrTerm.of(a, 'int'), to_z3(a.shape[0]))
+        ist = ISUM(ArrTerm.of(a, 'int'), to_z3(a.shape[0]))
+        m = to_z3(a.shape[0])
+        if is_sym(m) and L.ctx.ghost.get('selections', {}).get(m.get_id()) is not None:
+            # integer sum over a mask selection: its cast is the real sum of the casts (L0_isum_cast), to which the
+            # selection-sum lemma applies
+            fa = a.f
+            ra = Arr(a.shape, lambda ix: to_real(fa(ix)), 'float64')
+            st = SUM(ArrTerm.of(ra, 'real'), m)
+            L.ctx.fact(z3.ToReal(ist) == st, lemma=True)
+            L.I.used_lemmas.add('L0.isum_cast')
+            _selection_sum_lemma(L, ra, st)
+        return ist
     if a.dtype == 'bool':
         return CNT(ArrTerm.of(a, 'bool'), to_z3(a.shape[0]))
     raise Unsupported('sum dtype %r' % (a.dtype,))
